@@ -65,8 +65,13 @@ func c19wSetup(t *testing.T, b *world.Backend) (*world.Snap, []string, error) {
 func c19wScenario(cc *c19wCase, snap *world.Snap, ids []string) *schedScenario {
 	sc := &schedScenario{Name: "lockloss-wrapper", Snap: snap, Opts: world.InstanceOpts{NoWAL: true}, Horizon: 2 * time.Minute, Quantum: 250 * time.Millisecond}
 	names := []string{"plock_p1", "plock_p2"}
-	if cc.Kind == "workloads" {
+	switch cc.Kind {
+	case "workloads":
 		names = []string{"clock_" + ids[0], "clock_" + ids[1]}
+	case "workload-single": // the thin wrapper most operations use (control, send, replace, the per-workload part of remove)
+		names = []string{"clock_" + ids[0]}
+	case "node-single":
+		names = []string{"plock_p1"}
 	}
 	sc.Threads = append(sc.Threads, schedThread{Name: "H", Run: func(ctx context.Context, x *schedRun) {
 		o := getObs(x)
@@ -91,9 +96,14 @@ func c19wScenario(cc *c19wCase, snap *world.Snap, ids []string) *schedScenario {
 		}
 		cal := x.Inst("H").Cal
 		var err error
-		if cc.Kind == "workloads" {
+		switch cc.Kind {
+		case "workloads":
 			err = cal.WithWorkloadsLockedForVerif(ctx, []string{ids[0], ids[1]}, func(lctx context.Context, _ map[string]*coretypes.Workload) error { return body(lctx) })
-		} else {
+		case "workload-single":
+			err = cal.WithWorkloadLockedForVerif(ctx, ids[0], func(lctx context.Context, _ *coretypes.Workload) error { return body(lctx) })
+		case "node-single":
+			err = cal.WithNodePodLockedForVerif(ctx, "a", func(lctx context.Context, _ *coretypes.Node) error { return body(lctx) })
+		default:
 			err = cal.WithNodesPodLockedForVerif(ctx, &coretypes.NodeFilter{Includes: []string{"a", "b"}, All: true}, func(lctx context.Context, _ map[string]*coretypes.Node) error { return body(lctx) })
 		}
 		if err != nil {
@@ -129,8 +139,11 @@ func c19wExplore(t *testing.T, c *vcore.Ctx, b *world.Backend) {
 		c.HarnessError("wrapper setup: %v", err)
 		return
 	}
-	for _, kind := range []string{"pods", "workloads"} {
+	for _, kind := range []string{"pods", "workloads", "workload-single", "node-single"} {
 		for lose := 0; lose < 2; lose++ {
+			if lose == 1 && strings.HasSuffix(kind, "-single") {
+				continue
+			}
 			cc := c19wCase{Part: "wrapper", Kind: kind, Lose: lose}
 			if c.Expired() {
 				c.CapHit("budget reached")
